@@ -281,6 +281,8 @@ class LookupDB:
 
         ans = []
         is_hamming = custom_distance == 'hamming'
+        # max_custom_distance only applies to a callable custom distance
+        is_custom = custom_distance not in (None, 'hamming')
         if is_hamming:
             custom_distance = _hamming_replacement
         elif custom_distance is None:
@@ -298,7 +300,7 @@ class LookupDB:
                        for y_index in self.seq_dict[possible_edit]:
                            if pdist_mode and x_index == y_index:
                                continue
-                           if custom_distance in (None, "hamming"):
+                           if not is_custom:
                                ans.append((x_index, y_index, edit_distance))
                            else:
                                dist = custom_distance(seq, possible_edit)
